@@ -58,6 +58,14 @@ class FuncInfo:
         return self.cls is not None
 
     @property
+    def is_private(self) -> bool:
+        """underscore-named (not dunder), or a function of a package-private module (`_helpers.py`)"""
+        if self.name.startswith("__"):
+            return False
+        last = self.module.name.rsplit(".", 1)[-1]
+        return self.name.startswith("_") or (last.startswith("_") and not last.startswith("__") and self.cls is None)
+
+    @property
     def decorators(self) -> List[str]:
         return [dotted(d) or "?" for d in getattr(self.node, "decorator_list", [])]
 
@@ -360,6 +368,11 @@ class Model:
         if not c and in_module is not None:
             # moved to another module of the package (and imported back): accept it if the name is unique
             c = [f for f in self.find_funcs(name) if (in_class is None or (f.cls is not None and f.cls.name == in_class)) and (in_class is not None or f.cls is None)]
+        if not c and in_module is not None and in_class is None and in_module in self.modules and name in self.modules[in_module].imports:
+            # moved and renamed, imported back under the old name
+            t_ = self.lookup_target(self.modules[in_module].imports[name])
+            if isinstance(t_, FuncInfo):
+                c = [t_]
         if len(c) != 1:
             where = f" in {in_module or ''}{':' + in_class if in_class else ''}"
             raise AnalysisError(f"anchor vanished or ambiguous: function {name}{where} ({len(c)} candidates)")
